@@ -47,6 +47,11 @@ pub trait Scenario: Sync {
     fn time_deviation(&self) -> bool {
         false
     }
+    /// E4: the nodes use real loopback sockets; the runtime needs its I/O driver and the explorer must let the
+    /// kernel deliver readiness before it concludes that nothing is enabled
+    fn real_io(&self) -> bool {
+        false
+    }
     /// cheap monitor evaluated after every step
     fn monitor(&self, _st: &mut Self::State, _w: &World) -> Vec<Viol> {
         Vec::new()
@@ -86,10 +91,31 @@ pub fn run_one<S: Scenario>(scn: &S, schedule: &[(usize, usize)], seed: u64) -> 
     })
 }
 
+/// Let the kernel and tokio's I/O driver deliver socket readiness: returns true if some task became enabled.
+async fn settle_io(w: &mut World) -> bool {
+    // quiescent = nothing became enabled during several consecutive driver turns separated by short real-time pauses
+    for round in 0..12 {
+        tokio::task::yield_now().await;
+        w.absorb_spawned();
+        if !w.driver.enabled_fifo().is_empty() {
+            return true;
+        }
+        if round >= 2 {
+            std::thread::sleep(Duration::from_millis(2));
+        }
+    }
+    false
+}
+
 fn run_one_here<S: Scenario>(scn: &S, schedule: &[(usize, usize)], seed: u64) -> Exec {
-    let rt = driver::runtime(seed);
+    let real_io = scn.real_io();
+    let rt = if real_io { driver::runtime_io(seed) } else { driver::runtime(seed) };
     let result = catch_unwind(AssertUnwindSafe(|| {
         rt.block_on(async {
+            // with real sockets the paused clock must not auto-advance while the runtime waits for I/O: a parked
+            // blocking task inhibits auto-advance on current-thread runtimes
+            let (_park_tx, park_rx) = std::sync::mpsc::channel::<()>();
+            let _parked = if real_io { Some(tokio::task::spawn_blocking(move || { let _ = park_rx.recv(); })) } else { None };
             let mut w = World::new();
             let mut st = scn.setup(&mut w);
             let mut ex = Exec::default();
@@ -102,7 +128,10 @@ fn run_one_here<S: Scenario>(scn: &S, schedule: &[(usize, usize)], seed: u64) ->
                     break;
                 }
                 w.pump_net();
-                let en = w.driver.enabled_fifo();
+                let mut en = w.driver.enabled_fifo();
+                if real_io && en.is_empty() && settle_io(&mut w).await {
+                    en = w.driver.enabled_fifo();
+                }
                 let lazy = scn.lazy_count(&st, &w);
                 let time_choice = ex.ticks_used < max_ticks && (scn.time_deviation() || (en.is_empty() && lazy == 0));
                 let n_choices = en.len() + lazy + usize::from(time_choice);
